@@ -53,6 +53,18 @@ CHECKS = {
  "C20": dict(level="exploration", design="5/C20", technique="compiler-event monitor: an enumerated negative grammar of ill-formed programs, each compiled on its own next to a positive twin; offline oracle over the rustc diagnostics (must be rejected with an error located in the construct)",
    text="Every public way to obtain each builder typestate (constructors, Type::builder*, Field::builder, Default::default() at every state parameter) x every finisher with one required part missing or of the wrong kind (no path, variant without index, field without type, named among unnamed, unnamed among named; compile-time and portable form), and the container-level derive errors (union, unknown keys, repeated bounds/skip_type_params/capture_docs/crate in one or two attributes, invalid capture_docs values, bounds(..) leaving a parameter unbound). The twin must compile, the negative must not; a negative that compiles is run and its outcome recorded.",
    note="For the typestate half no scale-info code executes (rustc type-checks the API). Unknown keys on fields/variants are outside the statement."),
+ "C03": dict(level="exploration", design="5/C03", technique="generated-program monitor: values of generated derive(TypeInfo, Encode) definitions are encoded by the codec and read back by a schema-directed reference decoder that knows only the registry; compared with the generator's declaration model",
+   text="A seeded generator emits struct/enum definitions over the grammar of C03 (all shapes, generics, recursion, PhantomData, lifetimes/const parameters; skip, compact, index, encoded_as, discriminants, rename); the harness is compiled against /repo; for each instantiation boundary-heavy values are encoded and decoded from the PortableRegistry alone: exact consumption, same variant identifier, field identifiers, order and leaves; the metadata index must be the first byte.",
+   note="Trusted: valdec.rs (SCALE rules from the statement), the generator's Model emission, parity-scale-codec's derive as ground truth for bytes."),
+ "C04": dict(level="exploration", design="5/C04", technique="reference-decoder monitor over every built-in impl family: codec-encoded values decoded from the registry description alone and compared with documented-shape models",
+   text="Every std type with type info named in C04 (each member of each macro family, nested to depth 4 by seeded expressions) is exercised with boundary-heavy values; the schema-directed decoder must consume the encoding exactly and reproduce the documented shape (Option 0/1, Result 0/1, BTreeMap as sequence of pairs, Duration (u64,u32), NonZero wrapper, Range {start,end}, Cow wrapper, transparent wrappers, PhantomData empty, BitVec bit list by store width and Lsb0/Msb0). char and 19/20-tuples: shape only.",
+   note="BitVec values are exercised natively only (bitvec's own pointer code trips Miri)."),
+ "C09": dict(level="exploration", design="5/C09", technique="generated-program monitor under two configurations: type_info() of generated definitions vs the generator's declaration model (path, parameters, members, type names, docs) with the docs feature off and on",
+   text="The generator keeps the AST of every definition it writes (nested and raw-named modules, raw identifiers, generics with bounds/defaults/const/lifetimes, replace_segment, skip_type_params, rename, compact, skip, PhantomData, docs in both syntaxes with 0/1/2 leading spaces and hostile content, all capture_docs values) and emits the expected metadata by the rules of C09; the harness is built twice (docs off/on) and every instantiation is compared.",
+   note="encoded_as members: the type id is not asserted (C09 does not settle it); chained replace_segment rules, block comments, macro-generated types are outside the grammar."),
+ "C16": dict(level="exploration", design="5/C16", technique="all-pairs monitor over the corpus: ==/cmp/hash of MetaType vs declared identity taken from the trait; coherence of definitions and registration order inside identity classes; transitivity on triples",
+   text="For every ordered pair of ~480 corpus types: a==b iff TypeId::of::<Identity> equal (computed in the harness from the trait), cmp Equal iff ==, antisymmetry, partial_cmp, equal => equal hashes, type_id() is the declared identity; within each identity class all type_info() are equal and registering in either order gives the same registry; transitivity over 150^3 triples; sort from two initial orders agrees.",
+   note="Sampled over the generated corpus only."),
 }
 
 NOT_YET = {}
@@ -89,7 +101,7 @@ def main():
             "add_only": True,
         },
         "engines": [
-            {"name": "rt-monitors", "path": "/verif/harness", "serves_properties": sorted(CHECKS), "kind_free_text": "monitored Rust binary (reference models, invariant walkers, event-log checkers) built against /repo's working tree, driven by /verif/check"},
+            {"name": "rt-monitors", "path": "/verif/harness", "serves_properties": sorted(CHECKS), "kind_free_text": "monitored Rust binaries rt / rtc / fp (reference models, invariant walkers, event-log checkers, generated type corpus) and per-program rustc runs, all built against /repo's working tree and driven by /verif/check (driver/vdriver.py); program generators in /verif/gen"},
         ],
         "checks": checks,
         "not_applicable": na,
